@@ -24,6 +24,7 @@ type GenCfg struct {
 	InexactBigFloat bool // allow big.Floats that are not float64 values (rounded by both encoders)
 	NoBigDecimal bool
 	NoMarkers    bool
+	NoKeyMarkers bool
 	NoRecords    bool
 	NoMedia      bool
 	NoEdgeNode   bool
@@ -34,6 +35,7 @@ type GenCfg struct {
 	NoNilBig     bool
 	NoBoolEv     bool // use t/f only (CTE cannot distinguish)
 	NoMidCharSplit bool
+	MarkerHeavy  bool // more markers and references, also in key positions
 }
 
 type markInfo struct {
@@ -159,7 +161,11 @@ const (
 func (g *Gen) value(depth int, ctx vctx) {
 	g.budget--
 	// reference
-	if !g.c.NoMarkers && g.r.P(1, 12) {
+	refDen, mkDen := 12, 10
+	if g.c.MarkerHeavy {
+		refDen, mkDen = 5, 4
+	}
+	if !g.c.NoMarkers && g.r.P(1, refDen) {
 		if len(g.markerOrder) > 0 && g.r.P(2, 3) {
 			id := g.markerOrder[g.r.Intn(len(g.markerOrder))]
 			g.emit(Event{K: "ref", D: []byte(id)})
@@ -174,7 +180,7 @@ func (g *Gen) value(depth int, ctx vctx) {
 	}
 	marked := false
 	var mid string
-	if !g.c.NoMarkers && g.r.P(1, 10) && !(g.c.NoNestedMark && g.inMarked > 0) {
+	if !g.c.NoMarkers && g.r.P(1, mkDen) && !(g.c.NoNestedMark && g.inMarked > 0) {
 		marked = true
 		mid = g.freshID()
 		g.emit(Event{K: "mk", D: []byte(mid)})
@@ -402,6 +408,11 @@ func (g *Gen) key(used map[string]bool, allowRef bool) {
 		if tries > 20 {
 			k = 2
 		}
+		markedKey := ""
+		if allowRef && !g.c.NoMarkers && !g.c.NoKeyMarkers && k >= 1 && tries <= 20 && g.r.P(1, 8) {
+			markedKey = g.freshID()
+			g.emit(Event{K: "mk", D: []byte(markedKey)})
+		}
 		switch {
 		case k == 0 && allowRef && !g.c.NoMarkers:
 			// reference to a keyable marker
@@ -450,6 +461,10 @@ func (g *Gen) key(used map[string]bool, allowRef bool) {
 			continue
 		}
 		used[canon] = true
+		if markedKey != "" {
+			g.markers[markedKey] = markInfo{keyable: true}
+			g.markerOrder = append(g.markerOrder, markedKey)
+		}
 		return
 	}
 }
